@@ -346,7 +346,7 @@ def run(pm, ctx):
     body = [unparse(s) for s in uaf.node.body]
     try:
         i_par = next(i for i, s in enumerate(body) if 'self.parent_type.all_fields' in s)
-        i_own = next(i for i, s in enumerate(body) if 'self.fields' in s and 'extend' in s)
+        i_own = next(i for i, s in enumerate(body) if 'self.fields' in s and 'parent_type' not in s)
     except StopIteration:
         i_par = i_own = -1
     ctx.check('C02-R5', 0 <= i_par < i_own, 'Union.all_fields lists inherited tags first', uaf.loc,
